@@ -690,15 +690,17 @@ pub fn run(ctx: &Ctx) -> Outcome {
     let s2 = ServerConc::new(if quick { "server-limit2-q" } else { "server-limit2-t" }, quick, 2);
     let _ = sfx;
     let maxd = if quick { 8 } else { 12 };
-    let r1 = search(ctx, &c1, "C05", maxd, budget * 0.3, true);
-    let r2 = search(ctx, &c2, "C05", maxd, budget * 0.55, true);
-    let r3 = search(ctx, &s1, "C05", maxd, budget * 0.75, true);
-    let r4 = search(ctx, &s2, "C05", maxd, budget * 0.97, true);
+    // quick: explicit, machine-independent depths (clients 6, servers 7)
+    let (cd, sd) = if quick { (6, 7) } else { (maxd, maxd) };
+    let r1 = search(ctx, &c1, "C05", cd, budget * 0.3, true);
+    let r2 = search(ctx, &c2, "C05", cd, budget * 0.55, true);
+    let r3 = search(ctx, &s1, "C05", sd, budget * 0.75, true);
+    let r4 = search(ctx, &s2, "C05", sd, budget * 0.97, true);
     let s3 = ServerConc::new_variant(if quick { "server-limit1-blocked-q" } else { "server-limit1-blocked-t" }, quick, 1, true);
-    let r5 = search(ctx, &s3, "C05", maxd, budget * 1.2, true);
+    let r5 = search(ctx, &s3, "C05", sd, budget * 1.2, true);
     // the limit the CLIENT advertises applies to the streams the server pushes: two promises, limit 1
     let p1 = crate::c19::PushLife::new_variant("push-life-limit1", 2, Some(1));
-    let r6 = search(ctx, &p1, "C05", if quick { 9 } else { 13 }, budget * 1.4, true);
+    let r6 = search(ctx, &p1, "C05", if quick { 8 } else { 13 }, budget * 1.4, true);
     fill_outcome(&mut out, &[(c1.name, &r1), (c2.name, &r2), (s1.name, &r3), (s2.name, &r4), (s3.name, &r5), (p1.name, &r6)]);
     out.set("exhaustive", json!(false));
     out.set("alphabet", json!({"client": c1.events.iter().map(|e| format!("{:?}", e)).collect::<Vec<_>>(), "server": s1.events.iter().map(|e| format!("{:?}", e)).collect::<Vec<_>>()}));
